@@ -7,6 +7,7 @@ import (
 	"sort"
 	"strings"
 
+	"verifharness/internal/pool"
 	"verifharness/internal/proto"
 )
 
@@ -212,6 +213,7 @@ func c19Judge(c *Ctx, j *Job, res *proto.Result) {
 		var all []docSym
 		flatten(top, &all)
 		nlines := len(d.r.Lines[fi])
+		flines := lspLines(d.r.Text[fi])
 		byName := map[string][]docSym{}
 		for _, s := range all {
 			m := reSymName.FindStringSubmatch(s.Name)
@@ -221,7 +223,7 @@ func c19Judge(c *Ctx, j *Job, res *proto.Result) {
 			// well-formed and inside the file, for every entry
 			if s.Range.Start.Line > s.Range.End.Line || (s.Range.Start.Line == s.Range.End.Line && s.Range.Start.Character > s.Range.End.Character) {
 				prob = append(prob, fmt.Sprintf("%s: outline entry %q has start after end %v", f, s.Name, s.Range))
-			} else if s.Range.End.Line > nlines || s.Range.Start.Line < 0 {
+			} else if _, inDoc := rangeText(flines, s.Range.Start.Line, s.Range.Start.Character, s.Range.End.Line, s.Range.End.Character); !inDoc || s.Range.End.Line > nlines {
 				prob = append(prob, fmt.Sprintf("%s: outline entry %q lies outside the file %v", f, s.Name, s.Range))
 			}
 		}
@@ -404,7 +406,7 @@ func c19Judge(c *Ctx, j *Job, res *proto.Result) {
 }
 
 func checkC19(c *Ctx) {
-	c.Rep.Rule = "Scope.tla programs rendered with unique declaration names; documentSymbol of every file and workspace/symbol for the exact name of every global and function are requested on a fresh real server; every top-level local (with and without a <const> attribute), every global and every function (member functions t.f / t:m included) not nested in a function body must be in the outline with a well-formed in-file range containing its declaring identifier, and each workspace query (member functions by their qualified name) must return an entry located at a declaration of that name"
+	c.Rep.Rule = "Scope.tla programs rendered with unique declaration names; documentSymbol of every file and workspace/symbol for the exact name of every global and function are requested on a fresh real server; every top-level local (with and without a <const> attribute), every global and every function (member functions t.f / t:m included) not nested in a function body must be in the outline with a well-formed in-file range containing its declaring identifier, and each workspace query (member functions by their qualified name) must return an entry located at a declaration of that name; three hand-sized files with 150, 240 and 420 symbols ask exact-name queries for declarations before and after the bulk"
 	c.Rep.Assumptions = []string{
 		"outline names are compared after removing the documented decoration ('local ' prefix, '(params)' suffix)",
 		"a member function (function t.f / function t:m) is looked for under its qualified name with either separator, and queried as t.f",
@@ -429,8 +431,81 @@ func checkC19(c *Ctx) {
 	scKinds = scAllKinds
 	scCoreKinds = `{"local","use","assign","do","lfunc","lefunc","gfunc","meth"}`
 	scopeRuns(c, p, c19Build, func(j *Job, r *proto.Result) { c19Judge(c, j, r) })
+	c19BigFiles(c, p)
 	c.poolStats(p)
 	if surveyMode {
 		sv.dump()
 	}
+}
+
+
+// c19BigFiles: files with more symbols than the workspace search keeps per file (200): an exact-name query must still find
+// its declaration, wherever in the file it stands.
+func c19BigFiles(c *Ctx, p *pool.Pool) {
+	var groups [][]*proto.Case
+	type want struct {
+		q, name   string
+		line, col int
+	}
+	wants := map[int][]want{}
+	for id, n := range []int{150, 240, 420} {
+		var sb strings.Builder
+		var ws []want
+		sb.WriteString("local function first_fn(a) return a end\nMsg = {}\n")
+		ws = append(ws, want{"first_fn", "first_fn", 0, 15})
+		for i := 0; i < n; i++ {
+			fmt.Fprintf(&sb, "Msg.f%03d = %d\n", i, i)
+		}
+		base := 2 + n
+		sb.WriteString("local function lookup(k) return Msg[k] end\nlocal Cache = {}\nfunction Cache.clear() end\nfunction Cache:fill(n) return n end\nfunction after_big(a) return a end\nlast_global = 1\nprint(first_fn, lookup, Cache, after_big, last_global)\n")
+		ws = append(ws, want{"lookup", "lookup", base, 15}, want{"Cache.clear", "Cache.clear", base + 2, 15}, want{"Cache:fill", "Cache.fill", base + 3, 15},
+			want{"after_big", "after_big", base + 4, 9}, want{"last_global", "last_global", base + 5, 0}, want{fmt.Sprintf("Msg.f%03d", n-1), fmt.Sprintf("Msg.f%03d", n-1), 2 + n - 1, 4})
+		text := sb.String()
+		pc := &proto.Case{ID: 9000 + id, Files: map[string]string{"big.lua": text, "small.lua": "function small_fn() end\n"}, Init: json.RawMessage(allOnLocal)}
+		pc.Steps = append(pc.Steps, openStep("big.lua", text))
+		for _, w := range ws {
+			pc.Steps = append(pc.Steps, proto.Step{M: "workspace/symbol", P: json.RawMessage(fmt.Sprintf(`{"query":%s}`, jstr(w.q)))})
+		}
+		wants[pc.ID] = ws
+		groups = append(groups, []*proto.Case{pc})
+	}
+	p.RunSlice(groups, func(pc *proto.Case, res *proto.Result) {
+		raw, _ := json.Marshal(map[string]interface{}{"fam": "bigfile", "id": pc.ID})
+		c.Rep.Eval(string(raw))
+		if res.Crash != "" || res.Hang {
+			c.Rep.Violation(raw, fmt.Sprintf("server died or hung on a file with many symbols (crash=%q)", res.Crash))
+			return
+		}
+		var prob []string
+		for k, w := range wants[pc.ID] {
+			var ws []wsSym
+			if rp := res.Steps[1+k].Reply; len(rp) > 0 && string(rp) != "null" {
+				json.Unmarshal(rp, &ws)
+			}
+			found := false
+			for _, e := range ws {
+				if (e.Name == w.name || e.Name == w.q) && strings.HasSuffix(e.Location.URI, "/big.lua") && rangeContains(e.Location.Range, w.line, w.col, 1) {
+					found = true
+				}
+			}
+			if !found && strings.Contains(w.q, ":") && len(ws) >= 200 {
+				// as-built: the matcher compares the query with dotted names; a colon spelling matches nothing and the
+				// method is returned only while the unranked result list is not cut
+				c.Rep.Deviation("Dev_ColonSpellingNotMatched", fmt.Sprintf("workspace/symbol %q in a file with more than 200 symbols returns %d entries, none located at the method's declaration at big.lua %d:%d", w.q, len(ws), w.line, w.col), raw)
+				continue
+			}
+			if !found {
+				prob = append(prob, fmt.Sprintf("workspace/symbol %q returns %d entries, none located at the declaration at big.lua %d:%d", w.q, len(ws), w.line, w.col))
+			}
+		}
+		if len(prob) == 0 {
+			return
+		}
+		desc := fmt.Sprintf("file with %d lines of symbols: %s", strings.Count(pc.Files["big.lua"], "\n"), strings.Join(prob, "; "))
+		if surveyMode {
+			sv.add("bigfile "+firstWords(prob[0], 3), desc)
+			return
+		}
+		c.Rep.Violation(raw, desc)
+	})
 }
